@@ -249,6 +249,7 @@ def h_foreign_tp(ex, dll, cas, listeners, kind):
     ex.claim('foreign.no_delivery', all(not l.got for l in Ls))
     ex.claim('foreign.no_frame_transmitted', len(w.log) == base, {'frames': [[f['id'], f['data']] for f in w.log[base:]][:3]})
     ex.claim('foreign.no_exception', not n.notify_errors, {'errors': [repr(e) for e in n.notify_errors]})
+    ex.claim('foreign.frame_handler_returns', n.hung is None, {'hung': n.hung})
     ex.claim('foreign.job_thread_alive', n.job_alive())
     # afterwards the stack behaves like a fresh one: the same foreign source can open a session to an owned address
     owned = [l.held for l in Ls if l.kind == 'ca' and l.held is not None]
